@@ -57,6 +57,18 @@ def handle (j : Json) : Except String Json := do
   | "dbml" =>
     let d ← Codec.db (← j.getObjVal? "db")
     pure (encR (Dbml.renderDb d))
+  | "sql_elems" =>
+    let d ← Codec.db (← j.getObjVal? "db")
+    let enums := d.enums.map fun e => encR (pure (Sql.renderEnum e))
+    let cols := d.tables.map fun t =>
+      Json.arr (t.columns.map fun c => encR (Sql.renderColumn d (Sql.hasCompositePk t) c)).toArray
+    let idx := d.tables.map fun t =>
+      Json.arr (t.indexes.map fun i => encR (Sql.renderIndex t i)).toArray
+    pure (Json.mkObj [("enums", .arr enums.toArray), ("columns", .arr cols.toArray),
+                      ("indexes", .arr idx.toArray)])
+  | "sql_refs" =>
+    let d ← Codec.db (← j.getObjVal? "db")
+    pure (Json.mkObj [("refs", .arr (d.refs.map fun r => encR (Sql.renderRefTop d r)).toArray)])
   | "reorder" =>
     let d ← Codec.db (← j.getObjVal? "db")
     pure (Json.mkObj [("ok", jnats (Sql.reorderIdx d.tables d.refs))])
